@@ -118,7 +118,7 @@ def scan_error_value_construction(repo):
             if m.group(1) not in INFALLIBLE_WRAPPERS:
                 line = r["start_line"] + text[:m.start()].count("\n")
                 res.append({"scan": "C10.error_value_construction", "status": "violation",
-                            "label": "C10.frozenfd.error_value_construction_calls_no_fallible_wrapper",
+                            "label": "C08+C10.frozenfd.error_value_construction_calls_no_fallible_wrapper",
                             "function": sel, "site": {"file": f, "line": line, "text": "syscalls::%s(" % m.group(1)},
                             "what": "%s (%s:%d) calls the error-constructing wrapper syscalls::%s while it is itself part of building every wrapper's error value (FrozenFd::from -> as_unsafe_path_unchecked -> into_path): unbounded recursion when that call fails" % (sel, f, line, m.group(1))})
     if not res:
@@ -128,7 +128,7 @@ def scan_error_value_construction(repo):
 
 
 def run(prop, repo, idx):
-    if prop == "C10":
+    if prop in ("C10", "C08"):
         return scan_error_value_construction(repo)
     if prop not in PATTERNS:
         return []
